@@ -2558,3 +2558,37 @@ def cli11(ctx):
         r.report("CLI-11|get_words|extra-words-behind-from-test", fn_loc(b0), b0.path,
                  "for a tag with a parent reference the iteration over `conf.words` is unreachable: `@child <parent> [extra]` never reads extra.wsca -- the stage input is not 'final words of the parent plus the extra word files'")
     return r
+
+
+# ---------------------------------------------------------------- SYN-4: whitespace inside a feature name is skipped
+
+def syn4(ctx):
+    """The manual: "Whitespace is not important, meaning `[+del.rel.]` is identical to `[ + d e l . r e l . ]`". In both
+    lexers the characters of a feature name are collected by a loop that skips whitespace after every character (a call
+    of trim_whitespace inside the loop), or by a scan whose predicate accepts whitespace."""
+    r = RuleResult("SYN-4", "get_feature (rule and alias lexer): whitespace between the characters of a feature name is skipped (trim_whitespace inside the collecting loop, or a collecting predicate that accepts whitespace)", floor=2)
+    lib = ctx.lib
+    for path in ("asca::lexer::Lexer::get_feature", "asca::alias::lexer::AliasLexer::get_feature"):
+        b = ctx.fn(lib, path)
+        root = b.hir["body"]
+        ok = False
+        how = "no whitespace handling inside the name"
+        # (a) a loop that pushes characters and trims inside
+        for lp in [x for x in hirq.walk(root) if x["e"] == "loop"]:
+            pushes = any(y["e"] == "mcall" and y["name"] in ("push", "push_str") for y in hirq.walk(lp))
+            trims = any(y["e"] == "mcall" and y["name"] == "trim_whitespace" for y in hirq.walk(lp))
+            if pushes and trims:
+                ok, how = True, "the collecting loop calls trim_whitespace after every character"
+        # (b) a scan whose predicate lets whitespace through
+        for y in hirq.walk(root):
+            if y["e"] == "mcall" and y["name"] in ("chop_while", "take_while", "skip_while"):
+                cl = [hirq.strip(a) for a in y["args"] if hirq.strip(a).get("e") == "closure"]
+                if cl and any(z["e"] == "mcall" and z["name"] in ("is_whitespace", "is_ascii_whitespace") for z in hirq.walk(cl[0]["body"])) \
+                        and any(z["e"] == "mcall" and z["name"] in ("is_ascii_alphabetic", "is_alphabetic") for z in hirq.walk(cl[0]["body"])):
+                    ok, how = True, "the name is scanned with a predicate that accepts whitespace"
+        short = path.rsplit("::", 2)[-2]
+        r.inst("%s::get_feature: %s" % (short, how), fn_loc(b), "ok" if ok else "report")
+        if not ok:
+            r.report("SYN-4|%s" % short, fn_loc(b), path,
+                     "the feature name is collected without skipping whitespace between its characters: `[+del. rel.]`, `[+sec. stress]` and the manual's own `[ + d e l . r e l . ]` stop at the first space (UnknownFeature / ExpectedAlphabetic) while `[+del.rel.]` is accepted")
+    return r
